@@ -16,7 +16,12 @@ BadHeads == { A("h", <<X>>), A("h", <<N>>), A("h", <<X, N>>),
               A("h", <<Ap("fn:nosuch", <<X>>)>>), A("h", <<Ap("fn:plus", <<>>)>>), A("h", <<Ap("fn:list:get", <<X>>)>>) }
 BadLits == { <<"pos", A("q", <<X>>)>>, <<"pos", A("r", <<X, Y>>)>>, <<"neg", A("s", <<X>>)>>,
              <<"eq", Y, Ap("fn:plus", <<X, Num(1)>>)>>, <<"eq", Y, Ap("fn:map", <<X>>)>>, <<"lt", X, Y>>,
-             <<"bi", ":match_pair", <<P, X>>>>, <<"bi", ":match_field", <<X, Num(1), Y>>>>, <<"bi", ":lt", <<X>>>> }
+             <<"bi", ":match_pair", <<P, X>>>>, <<"bi", ":match_field", <<X, Num(1), Y>>>>, <<"bi", ":lt", <<X>>>>,
+             \* negated built-in predicates, also with a selector / key that is not a constant
+             <<"eq", P, StructV(<<<<Nm("/a"), Num(1)>>>>)>>,
+             <<"neg", A(":match_field", <<P, X, Num(1)>>)>>, <<"neg", A(":match_field", <<P, Ap("fn:plus", <<X, Num(1)>>), Y>>)>>,
+             <<"neg", A(":match_entry", <<P, X, Num(1)>>)>>, <<"neg", A(":match_pair", <<P, X, X>>)>>, <<"neg", A(":list:member", <<X, P>>)>>,
+             <<"neg", A(":lt", <<X, Y>>)>>, <<"neg", A(":match_prefix", <<X, Y>>)>> }
 BadTransforms ==
   { <<"none">>,
     <<"do", <<"N">>, <<<<"N", "fn:count", <<>>>>>>>>,                       \* key defined later in the same transform
@@ -34,5 +39,7 @@ BadTransforms ==
     <<"let", <<<<"X", Ap("fn:plus", <<X, Num(1)>>)>>>>>>,                   \* redefines a body variable
     <<"let", <<<<"N", Ap("fn:plus", <<Var("M"), Num(1)>>)>>, <<"M", Num(1)>>>>>> }   \* use before definition
 BadEdbs == { { A("q", <<Num(1)>>), A("q", <<Num(2)>>), A("r", <<Num(1), Num(2)>>), A("s", <<Num(2)>>) } }
+BadHeads3 == { A("h", <<X>>) }
+BadNone == { <<"none">> }
 KeepAll(r) == TRUE
 =============================================================================
